@@ -323,13 +323,28 @@ impl Assembler for IntervalAssembler {
 
     fn build_add(&mut self, out_reg: u8, lhs_reg: u8, rhs_reg: u8) {
         dynasm!(self.0.ops
+            // The sums of opposite bounds are NaN when the ranges contain
+            // infinities of opposite sign; poison both result lanes then
+            ; vpshufd xmm1, Rx(reg(rhs_reg)), 0b11110001u8 as i8
+            ; vaddps xmm1, Rx(reg(lhs_reg)), xmm1
+            ; vcmpunordps xmm1, xmm1, xmm1
+            ; vpshufd xmm2, xmm1, 0b11110001u8 as i8
+            ; vorps xmm1, xmm1, xmm2
             ; vaddps Rx(reg(out_reg)), Rx(reg(lhs_reg)), Rx(reg(rhs_reg))
+            ; vorps Rx(reg(out_reg)), Rx(reg(out_reg)), xmm1
         );
     }
     fn build_sub(&mut self, out_reg: u8, lhs_reg: u8, rhs_reg: u8) {
         dynasm!(self.0.ops
+            // The differences of like bounds are NaN when the ranges contain
+            // infinities of the same sign; poison both result lanes then
+            ; vsubps xmm2, Rx(reg(lhs_reg)), Rx(reg(rhs_reg))
+            ; vcmpunordps xmm2, xmm2, xmm2
+            ; vpshufd xmm3, xmm2, 0b11110001u8 as i8
+            ; vorps xmm2, xmm2, xmm3
             ; vpshufd xmm1, Rx(reg(rhs_reg)), 0b11110001u8 as i8
             ; vsubps Rx(reg(out_reg)), Rx(reg(lhs_reg)), xmm1
+            ; vorps Rx(reg(out_reg)), Rx(reg(out_reg)), xmm2
         );
     }
     fn build_mul(&mut self, out_reg: u8, lhs_reg: u8, rhs_reg: u8) {
